@@ -65,4 +65,10 @@ def suite_valid(ctx):
     return s
 
 
-SUITES = [suite_valid]
+def suite_callw(ctx):
+    """whole client calls of every service family against the model's callWith (udsdrv callw): the correspondence the call-level theorems rest on"""
+    from .. import callw
+    return callw.suite_callw(ctx, 'C02')
+
+
+SUITES = [suite_valid, suite_callw]
